@@ -68,7 +68,7 @@ type c01Obs struct {
 	endMs    int64
 	extended bool
 
-	stalls     int   // times the drain loop of the harness was not scheduled for > c01StallGap
+	stalls     int // times the drain loop of the harness was not scheduled for > c01StallGap
 	maxStallMs int64
 	starved    bool // the last such stall is less than c01QuietAfterStall before the end: missing rows cannot be judged
 }
